@@ -672,8 +672,8 @@ std::string
 gen_c02()
 {
 	std::ostringstream t;
-	int mode = *pbt::welem<int>({{2, 0}, {3, 1}, {3, 2}});
-	t << "cfg " << *pbt::range<int>(1, 1000000) << " " << mode << " " << *gen::element(10, 30, 60) << " " << *pbt::range<int>(0, 3) << " 300 0\n";
+	int mode = *pbt::welem<int>({{2, 0}, {3, 1}, {3, 2}, {2, 3}});
+	t << "cfg " << *pbt::range<int>(1, 1000000) << " " << mode << " " << (mode == 3 ? *gen::element(5, 20, 50) : *gen::element(10, 30, 60)) << " " << *pbt::range<int>(0, 3) << " " << (mode == 3 ? *gen::element(60, 150, 400) : 300) << " 0\n";
 	int T = *gen::element(1, 5, 20, 50);
 	t << "op " << *pbt::range<int>(0, K_NKINDS - 1) << " " << *pbt::welem<int>({{4, 0}, {1, 1}, {4, 2}, {1, 3}}) << " " << T << " " << *pbt::welem<int>({{5, 0}, {2, 1}, {1, 2}, {1, 3}}) << " "
 	  << *pbt::range<int>(0, 1) << "\n";
